@@ -121,8 +121,9 @@ class CModel:
             affine=bool(kw.get("affine_transform", False)) and not self.identity,
         )
 
-    def fit_from(self, x0, z0=None):
-        return self.m.fit(np.asarray(x0, dtype=np.float64), z0)
+    def fit_from(self, x0, z0=None, bits=64):
+        lim = (4.0 if self.m.bounded == "logit" else 2.5) if bits == 32 else None
+        return self.m.fit(np.asarray(x0, dtype=np.float64), z0, well_conditioned_below=lim)
 
     def forward(self, x):
         y = self.m.pre_affine_forward(np.asarray(x, dtype=np.float64))
@@ -300,7 +301,7 @@ def run_case(case, workdir):
             continue
         x0 = np.asarray(c0["prior"][0], dtype=np.float64)
         z0 = np.asarray(c0["z"], dtype=np.float64)
-        zfit = cm.fit_from(x0, z0)
+        zfit = cm.fit_from(x0, z0, bits)
         probe_state["last_fit"] = (cm.m.mean, cm.m.std)
         ztol = (5e-3 if bits == 32 else 1e-6)
         dz = np.abs(zfit - z0) if zfit.shape == z0.shape else None
@@ -308,7 +309,16 @@ def run_case(case, workdir):
             # a coordinate within rounding of the period edge may wrap to either end: compare on the circle
             per_w = (np.asarray(t.upper) - np.asarray(t.lower))[cm.m.pm] / (np.abs(cm.m.std[cm.m.pm]) if cm.m.affine else 1.0)
             dz[:, cm.m.pm] = np.minimum(dz[:, cm.m.pm], np.abs(per_w - dz[:, cm.m.pm]))
-        if dz is None or not np.all(dz <= ztol * (1 + np.abs(z0)) + ztol * (1 + np.abs(z0).max())):
+        if dz is not None and bits == 32 and cm.m.bm.any():
+            # rows next to a bound are not decidable in float32 (see CompositeModel.fit): judge the well-conditioned ones
+            y0 = cm.m.pre_affine_forward(x0)
+            lim = 4.0 if cm.m.bounded == "logit" else 2.5
+            good = np.all(np.abs(y0[:, cm.m.bm]) < lim, axis=1)
+            dz = dz[good] if good.any() else dz[:0]
+            z0c = z0[good] if good.any() else z0[:0]
+        else:
+            z0c = z0
+        if dz is None or (len(dz) and not np.all(dz <= ztol * (1 + np.abs(z0c)) + ztol * (1 + np.abs(z0c).max()))):
             # the start positions are not the model's forward image of the start coordinates
             V.append(O.violation("c05.start_positions", f"kernel {ki}: start positions are not the preconditioning image of the start coordinates "
                                  f"(max dev {float(np.max(np.abs(zfit - z0))) if zfit.shape == z0.shape else 'shape'})", where))
@@ -331,9 +341,9 @@ def run_case(case, workdir):
             # bounded maps saturate in floating point far out in z (sigmoid -> exactly 0/1, log -> -inf): the
             # statement is about the exact map; such points are counted, not judged
             y_pre = z * cm.m.std + cm.m.mean if cm.m.affine else z
-            sat_lim = 7.0 if bits == 32 else 15.0
+            sat_lim = 4.0 if bits == 32 else 15.0
             if cm.m.bounded == "probit":
-                sat_lim = 3.0 if bits == 32 else 5.5
+                sat_lim = 2.5 if bits == 32 else 5.5
             saturated = np.any(np.abs(y_pre[:, cm.m.bm]) > sat_lim, axis=1) if cm.m.bm.any() else np.zeros(len(z), bool)
             width = hi - lo
             xtol = (5e-4 if bits == 32 else 1e-8)
